@@ -400,3 +400,86 @@ Proof.
     destruct H as [H|[]]. inversion H; subst. exists g, d. auto.
   - intros (g & d & Hin & El & ->). exists (a, g). split; [exact Hin|]. simpl. rewrite El. left. reflexivity.
 Qed.
+
+(* ---------- from the journal to the per-account ledger of Funding.v ---------- *)
+
+(* an entry that is neither a debit of [a] nor a BalanceChange of [a] never lowers [a]'s balance *)
+Definition is_change_of (a : N) (e : entry) : bool :=
+  match e with BalanceChange c _ => c =? a | _ => false end.
+
+Lemma fwd_nondecreasing s e s1 a :
+  fwd s e s1 -> debit_source e <> Some a -> is_change_of a e = false -> s a <= s1 a.
+Proof.
+  intros H Hd Hc. inversion H; subst; clear H; unfold bset; simpl in *.
+  - destruct (N.eqb_spec f t); [contradiction|]. simpl in Hd.
+    destruct (N.eqb_spec v 0) as [->|Hv]; simpl in Hd; beq_cases; try lia; congruence.
+  - lia.
+  - destruct (N.eqb_spec (s a0) 0) as [E|E]; simpl in Hd; beq_cases; try lia; congruence.
+  - destruct (N.eqb_spec (s a0) 0) as [E|E]; simpl in Hd; beq_cases; try lia; congruence.
+  - beq_cases; try discriminate; try lia; congruence.
+  - lia.
+Qed.
+
+(* the root value transfer lowers the caller's balance by exactly the transaction value *)
+Lemma fwd_root_transfer s e s1 t a :
+  fwd s e s1 -> is_root_value_transfer e t = true -> s a <= s1 a + value t.
+Proof.
+  intros H Hr. destruct e as [f to v| | |]; simpl in Hr; try discriminate.
+  destruct (N.eqb_spec f (caller t)); simpl in Hr; [|discriminate].
+  destruct (N.eqb_spec v (value t)); simpl in Hr; [|discriminate]. subst.
+  inversion H; subst; clear H; unfold bset; [|lia].
+  beq_cases; lia.
+Qed.
+
+(* Balance of a delegated account at its first protected debit: at least its balance at the
+   checkpoint, minus the transaction's own top-level value if the root transfer precedes it -
+   provided no BalanceChange of [a] (fee deduction happens before the checkpoint, reimbursement
+   after execution) lies in between.  This is the abstraction Funding.v makes of one transaction. *)
+Theorem first_protected_lower_bound t st es : forall s tr root_pending j a,
+  wf_trace s es tr ->
+  first_protected t st es (root_pos t es root_pending) j a ->
+  is_delegated st a = true ->
+  (forall k e, (k < j)%nat -> nth_opt es k = Some e -> is_change_of a e = false) ->
+  s a <= nth j (s :: tr) s a + (if root_pending then value t else 0).
+Proof.
+  induction es as [|e r IH]; intros s tr rp j a Hw [Hp Hmin] Hdel Hnc.
+  - destruct Hp as (e & E & _). destruct j; discriminate.
+  - destruct tr as [|s1 tr]; simpl in Hw; [contradiction|]. destruct Hw as [Hf Hw].
+    destruct j as [|j]; [simpl; lia|].
+    assert (Hc0 : is_change_of a e = false) by (apply (Hnc 0%nat); [lia|reflexivity]).
+    assert (Hnc' : forall k e', (k < j)%nat -> nth_opt r k = Some e' -> is_change_of a e' = false)
+      by (intros k e' Hk He'; apply (Hnc (S k)); [lia|exact He']).
+    change (nth (S j) (s :: s1 :: tr) s a) with (nth j (s1 :: tr) s a).
+    assert (Hlen : (j < length (s1 :: tr))%nat).
+    { destruct Hp as (e' & E & _). simpl in E.
+      assert (length tr = length r).
+      { clear -Hw. revert s1 tr Hw. induction r as [|x r IHr]; intros s1 [|s2 tr] H; simpl in H; try contradiction; auto.
+        destruct H as [_ H]. simpl. f_equal. eapply IHr; eauto. }
+      simpl. apply nth_opt_Some_lt in E. lia. }
+    rewrite (nth_indep (s1 :: tr) s s1 Hlen).
+    destruct (rp && is_root_value_transfer e t) eqn:Eroot.
+    + (* e is the excluded root transfer *)
+      apply andb_true_iff in Eroot. destruct Eroot as [-> Hroot].
+      assert (Hrp : root_pos t (e :: r) true = Some 0%nat) by (unfold root_pos; simpl; rewrite Hroot; reflexivity).
+      rewrite Hrp in *.
+      assert (HS : forall k b, protected_at t st (e :: r) (Some 0%nat) (S k) b <-> protected_at t st r None k b)
+        by (intros k b; apply prot_cons_S; split; discriminate).
+      assert (Hfp : first_protected t st r (root_pos t r false) j a).
+      { split; [apply HS; exact Hp|]. intros k Hk C. apply (Hmin (S k)); [lia|]. apply HS. exact C. }
+      specialize (IH s1 tr false j a Hw Hfp Hdel Hnc').
+      change (if false then value t else 0) with 0 in IH.
+      pose proof (fwd_root_transfer _ _ _ t a Hf Hroot). lia.
+    + set (root' := root_pos t r rp).
+      assert (Hrp : root_pos t (e :: r) rp = option_map S root').
+      { unfold root', root_pos. destruct rp; simpl in *; [|reflexivity]. rewrite Eroot. destruct (find_root t r); reflexivity. }
+      rewrite Hrp in *.
+      assert (HS : forall k b, protected_at t st (e :: r) (option_map S root') (S k) b <-> protected_at t st r root' k b).
+      { intros k b. apply prot_cons_S. destruct root' as [x|]; simpl; split; intros C; inversion C; subst; reflexivity. }
+      assert (Hfp : first_protected t st r root' j a).
+      { split; [apply HS; exact Hp|]. intros k Hk C. apply (Hmin (S k)); [lia|]. apply HS. exact C. }
+      specialize (IH s1 tr rp j a Hw Hfp Hdel Hnc').
+      (* e is not a protected debit of a (j+1 is the first), hence not a debit of a at all *)
+      assert (Hnd : debit_source e <> Some a).
+      { intros C. apply (Hmin 0%nat); [lia|]. apply prot_cons_0. split; [destruct root'; simpl; discriminate|]. auto. }
+      pose proof (fwd_nondecreasing _ _ _ a Hf Hnd Hc0). lia.
+Qed.
